@@ -338,6 +338,9 @@ pub fn cli() -> i32 {
             let mut ops = 0u64;
             for i in 0..n {
                 let seed = mix(base, i);
+                if n == 1 {
+                    println!("run seed {}", seed);
+                }
                 let sim = check::run_random(seed, &profile, probe, false);
                 for v in &sim.or.violations {
                     let e = counts
